@@ -240,8 +240,38 @@ def body_iter_snapshot(I, X, then="consume-in-sibling"):
     return ok, {"n": len(got)}
 
 
+def body_shared_proxy(I, X, how="call", order="A-then-B"):
+    """one proxy object used from two contexts: it resolves, at every access, to the object
+    bound in the context of that access -- also when the two contexts hold equal but distinct
+    objects -- and a mutation through it lands in that context's object only"""
+    from werkzeug.local import Local, LocalProxy
+
+    base = contextvars.copy_context()
+    loc = base.run(Local)
+    proxy = base.run(lambda: I.call(loc.__call__, ("x",)) if how == "call" else I.call(LocalProxy, (loc, "x")))
+    ca, cb = base.run(contextvars.copy_context), base.run(contextvars.copy_context)
+    v, w = X.int("v", 0, 3), X.int("w", 0, 3)
+    la, lb = [v], [w]
+    ok = True
+    ca.run(lambda: I.setattr(loc, "x", la))
+    got_a = ca.run(lambda: I.call(proxy._get_current_object, ()))
+    ok = pand(ok, got_a is la)
+    cb.run(lambda: I.setattr(loc, "x", lb))
+    first, second = (ca, la), (cb, lb)
+    if order != "A-then-B":
+        first, second = second, first
+    for cx, want in (first, second, first):
+        got = cx.run(lambda: I.call(proxy._get_current_object, ()))
+        ok = pand(ok, got is want)
+    cb.run(lambda: I.call(proxy._get_current_object, ()).append(9))
+    ok = pand(ok, len(lb) == 2, len(la) == 1)
+    return ok, {"la": la, "lb": lb}
+
+
 def obligations(tier, seed):
-    out = []
+    extra = [{"name": f"shared_proxy[{how},{order}]", "body": "body_shared_proxy", "params": {"how": how, "order": order},
+              "opts": {"budget_s": 600}} for how in ("call", "ctor") for order in ("A-then-B", "B-then-A")]
+    out = list(extra)
     for top in ("value", "none", "zero"):
         out.append({"name": f"manager_cleanup[top={top}]", "body": "body_manager_cleanup", "params": {"top": top},
                     "opts": {"budget_s": 300, "ctx": {"bv_ints": True}}})
